@@ -20,6 +20,7 @@
 (*   rsub / rsubcb / runsub         subscribe_replica / unsubscribe_replica*)
 (*   asub / asubcb / aunsub (agent a, about agent c): subscribe_agent /     *)
 (*                      unsubscribe_agent                                   *)
+(*   areg               an agent that left registers again: register_agent  *)
 (*   aunreg             agent a leaves: unregister_agent (it does nothing   *)
 (*                      afterwards; what it hosted or replicated stays in   *)
 (*                      the tables, as the runtime leaves it)               *)
@@ -36,12 +37,12 @@ InitS(Agents, Comps) == [host |-> [c \in Comps |-> ""], reps |-> [c \in Comps |-
                          cbn |-> [a \in Agents |-> [c \in Comps |-> 0]],
                          \* what a itself knows for sure without any message: the computations it hosts
                          pendingUnreg |-> {},
-                         subA |-> [a \in Agents |-> {}], gone |-> {}]
+                         subA |-> [a \in Agents |-> {}], gone |-> {}, back |-> {}]
 
 \* is operation op = [k, a, c] a sensible API call in state s ?  (an agent registers a computation nobody hosts, unregisters
 \* what it hosts, publishes a replica of a computation it hosts or follows, ...)
 Enabled(s, op) ==
-  IF op.k \notin {"dl", "drain"} /\ op.a \in s.gone THEN FALSE ELSE
+  IF op.k \notin {"dl", "drain", "areg"} /\ op.a \in s.gone THEN FALSE ELSE
   CASE op.k = "reg"    -> s.host[op.c] = ""
     [] op.k = "unreg"  -> s.host[op.c] = op.a
     [] op.k \in {"sub", "subcb", "subone"} -> s.host[op.c] # op.a
@@ -54,6 +55,7 @@ Enabled(s, op) ==
     [] op.k \in {"asub", "asubcb"} -> op.c # op.a
     [] op.k = "aunsub" -> op.c \in s.subA[op.a]
     [] op.k = "aunreg" -> TRUE
+    [] op.k = "areg" -> op.a \in s.gone /\ op.a \notin s.back
     [] OTHER -> TRUE
 
 Apply(s, op) ==
@@ -71,6 +73,9 @@ Apply(s, op) ==
     [] op.k \in {"asub", "asubcb"} -> [s EXCEPT !.subA[op.a] = @ \cup {op.c}]
     [] op.k = "aunsub" -> [s EXCEPT !.subA[op.a] = @ \ {op.c}]
     [] op.k = "aunreg" -> [s EXCEPT !.gone = @ \cup {op.a}]
+    \* the agent registers again (same address): the others may follow it again; what it had subscribed to itself was cleaned up
+    \* by the directory when it left, so its own views stay out of the comparison and it does nothing else
+    [] op.k = "areg" -> [s EXCEPT !.back = @ \cup {op.a}]
     [] OTHER -> s
 
 RECURSIVE Fold(_, _, _)
